@@ -1050,6 +1050,8 @@ class Interp:
             for nd in v.refs:
                 if isinstance(nd, Seq) and nd.items is not None and len(nd.items) == n and not starred:
                     parts = [join(p, x) for p, x in zip(parts, nd.items)]
+                elif isinstance(nd, Rec) and not starred and len(self.record_fields(nd.cls)) == n:
+                    parts = [join(p, nd.fields.get(f, BOT)) for p, f in zip(parts, self.record_fields(nd.cls))]
                 elif isinstance(nd, View) and nd.kind == "pair" and n == 2:
                     parts = [join(parts[0], replace(nd.d.k, uniq=v.uniq)), join(parts[1], via(nd.d.v))]
                 else:
@@ -1087,6 +1089,9 @@ class Interp:
                 self.event("assign", dicts, k, norm(target.slice), v, fr, stmt, reads_same=reads, fresh_empty=self.is_fresh_empty(value))
         elif isinstance(target, ast.Starred):
             self.assign(target.value, v, env, fr, stmt, None)
+
+    def record_fields(self, ci: ClassInfo) -> list[str]:
+        return [a for c in reversed(self.repo.mro(ci)) for a in c.ann_attrs]
 
     @staticmethod
     def is_fresh_empty(value: ast.expr | None) -> bool:
@@ -1735,6 +1740,9 @@ class Interp:
             elif isinstance(n, Match):
                 outs.append(self.group_value(n, None))
                 unique = False
+            elif isinstance(n, Rec) and self.repo.lookup_method(n.cls, "__iter__") is None and any(b.endswith("NamedTuple") for b in self.repo.external_bases(n.cls)):
+                outs.append(join(*[n.fields.get(f, BOT) for f in self.record_fields(n.cls)]))
+                unique = False
             elif isinstance(n, Rec) and fr is not None and self.repo.lookup_method(n.cls, "__iter__") is not None:
                 it = self.call_function(self.repo.lookup_method(n.cls, "__iter__"), [ref(n)], {}, fr, expr if expr is not None else n.cls.node, bound=True)
                 outs.append(self.iterate(it, None, fr, expr))
@@ -1849,6 +1857,13 @@ class Interp:
             elif isinstance(n, View) and n.kind == "pair":
                 ci = k.single()
                 outs.append(n.d.k if ci is not None and ci.v == 0 else via(n.d.v) if ci is not None and ci.v == 1 else join(n.d.k, via(n.d.v)))
+            elif isinstance(n, Rec) and self.repo.lookup_method(n.cls, "__getitem__") is None and any(b.endswith("NamedTuple") for b in self.repo.external_bases(n.cls)):
+                names = self.record_fields(n.cls)
+                ci_ = k.single()
+                if ci_ is not None and isinstance(ci_.v, int) and -len(names) <= ci_.v < len(names):
+                    outs.append(n.fields.get(names[ci_.v], BOT))
+                else:
+                    outs.append(join(*[n.fields.get(f, BOT) for f in names]))
             elif isinstance(n, Rec) and self.repo.lookup_method(n.cls, "__getitem__") is not None:
                 outs.append(self.call_function(self.repo.lookup_method(n.cls, "__getitem__"), [ref(n), k], {}, fr, e, bound=True))
             elif isinstance(n, (Cls, Lib)):
@@ -1898,6 +1913,9 @@ class Interp:
                 v = self.class_attr(n.cls, e.attr, fr, ref(n))
                 if v is not None and not (got and e.attr in {a for c in self.repo.mro(n.cls) for a in c.ann_attrs}):
                     outs.append(v)
+                    got = True
+                if not got and e.attr in ("_replace", "_asdict"):
+                    outs.append(self.lib("rec." + e.attr, ref(n)))
                     got = True
                 if not got:
                     if e.attr == "args":
@@ -2399,7 +2417,7 @@ class Interp:
                 if meth in ("exists", "is_file"):
                     return BOOL
             return self.unknown_value(f"method {meth} of {what or 'an unknown object'}", *args)
-        if kind in ("rec", "func", "class", "pattern", "match", "node"):
+        if kind in ("rec", "func", "class", "pattern", "match", "node") and name not in ("rec._replace", "rec._asdict"):
             return self.unknown_value(f"method {name}", *args)
         # ---------------------------------------------------------------- builtins and friends
         if name.startswith("builtins."):
@@ -2442,6 +2460,36 @@ class Interp:
             if "default_factory" in kwargs:
                 return self.call_value(kwargs["default_factory"], [], {}, fr, e, tag="default_factory")
             return BOT
+        if name == "dataclasses.replace" or (name == "rec._replace" and recv is not None):
+            base = recv if name == "rec._replace" else a0
+            outs = []
+            for r0 in base.refs:
+                if isinstance(r0, Rec):
+                    r1 = self.node((fr.ctx, id(e), "replace", r0.cls.fq), lambda r0=r0: Rec((fr.ctx, id(e), "replace", r0.cls.fq), r0.cls))
+                    for f, v in r0.fields.items():
+                        if f not in kwargs:
+                            self.grow_field(r1, f, v)
+                    for f, v in kwargs.items():
+                        self.grow_field(r1, f, v)
+                    outs.append(ref(r1))
+            return join(*outs) if outs else self.unknown_value(name, *args)
+        if name in ("dataclasses.astuple", "dataclasses.asdict") or (name in ("rec._asdict",) and recv is not None):
+            base = recv if name.startswith("rec.") else a0
+            outs = []
+            for r0 in base.refs:
+                if isinstance(r0, Rec):
+                    names = self.record_fields(r0.cls)
+                    if name.endswith("astuple"):
+                        t = self.seq(fr, e, "tuple", ("astuple", r0.key))
+                        t.items = [r0.fields.get(f, BOT) for f in names]
+                        outs.append(ref(t))
+                    else:
+                        d = self.dict_(fr, e, ("asdict", r0.key))
+                        d.fields = d.fields if d.fields is not None else {}
+                        for f in names:
+                            self.grow_dict(d, const(f), r0.fields.get(f, BOT))
+                        outs.append(ref(d))
+            return join(*outs) if outs else self.unknown_value(name, *args)
         if name in ("copy.deepcopy", "copy.copy"):
             return a0  # the copy holds what the original holds (aliasing over-approximates)
         if name in ("typing.cast",):
